@@ -196,6 +196,7 @@ def cli_case(draw):
     c["sub"] = "cli"
     c["filter"] = draw(st.sampled_from([None, None, "discard_trimmed", "discard_untrimmed"]))
     c["default_indexing"] = draw(st.booleans())
+    c["as_r2"] = draw(st.integers(0, 2)) == 0
     if draw(st.integers(0, 3)) == 0:
         # one sequence as anchored 5', anchored 3' and regular adapter, in any order, on reads that carry it at both
         # ends: complete ties that only the order on the command line decides; no index can be built from them
@@ -253,6 +254,23 @@ def check_cli(case, ctx):
     if got != exp:
         raise Violation(f"output of {args} on {case['reads']} differs from the documented adapter selection",
                         observed=got, expected=exp)
+    if case.get("as_r2") and not case["filter"]:
+        # the same adapters given for the second read of a pair (-A/-G/-B) on the same reads as R2: the rules do
+        # not depend on the side; R1 gets no adapters and passes through
+        ctx.label("cli:same-rules-for-R2")
+        ad2 = [dict(d, opt=d["opt"].upper()) for d in case["ad"]]
+        sc2 = {"paired": True, "ad1": [], "ad2": ad2, "glob": sc["glob"],
+               "o": {"times": times, "action": action, "rename": "{id} an={r2.adapter_name} ms={r2.match_sequence}"}}
+        args2 = scen.flatten(scen.mod_tokens(sc2))
+        dummy = [(n, "ACGTTGCA", "IIIIIIII") for n, _, _ in recs]
+        r2 = cli.run(args2 + ["-o", "o1.fastq", "-p", "o2.fastq", "i1.fastq", "i2.fastq"],
+                     {"i1.fastq": cli.fastq(dummy), "i2.fastq": cli.fastq(recs)})
+        if r2.exit != 0:
+            raise Violation(f"cutadapt failed on {args2}: exit={r2.exit} {r2.errors} {r2.tb}")
+        got2 = [tuple(x) for x in r2.records("o2.fastq")]
+        if got2 != exp:
+            raise Violation(f"R2 output of {args2} on {case['reads']} differs from what the same adapters give on "
+                            f"single-end reads", observed=got2, expected=exp)
     if nt:
         ctx.nontrivial_case({"args": args, "reads": case["reads"]})
 
